@@ -132,6 +132,19 @@ def impl(case):
                 except Exception as e:  # out of domain: eager NumPy itself raises
                     eager.append(None)
                     eager_failed = '%s at step %d' % (type(e).__name__, k)
+            elif s['k'] == 'fail':
+                # a read that cannot succeed (a channel / sample index beyond the reader, where NumPy raises too):
+                # whatever it does, it must leave the reader - and every reader derived before or after - as it was
+                try:
+                    with np.errstate(all='ignore'):
+                        rr = readers[s['reader']]
+                        w = eager[s['reader']].shape[1] if eager[s['reader']] is not None else case['nch']
+                        if s['what'] == 'col':
+                            rr[_pyitem(s['item'], 'py'), [w + 3]]
+                        else:
+                            rr[sum(case['parts']) + 5]
+                except Exception:  # noqa
+                    pass
             else:
                 item = _pyitem(s['item'], s.get('kind', 'py'))
                 cols = _pycols(s.get('cols'), s.get('kind', 'py'))
@@ -165,6 +178,8 @@ def model_query(case, impl_res):
             steps.append(dict(k='derive', tok=k, **{'from': s['from']}))
         elif s['k'] == 'cols':
             steps.append(dict(k='cols', cols=lean_cols(s['cols']), **{'from': s['from']}))
+        elif s['k'] == 'fail':
+            continue          # changes nothing: not part of the program the model sees
         else:
             steps.append(dict(k='eval', reader=s['reader'], item=s['item'], cols=lean_cols(s.get('cols'))))
     return dict(p=PID, op='program', parts=case['parts'], nch=case['nch'], steps=steps)
@@ -210,7 +225,7 @@ def judge(case, impl_res, ans):
 
 def nontrivial(case):
     st = case['steps']
-    return sum(s['k'] != 'eval' for s in st) >= 2 and sum(s['k'] == 'eval' for s in st) >= 2
+    return sum(s['k'] not in ('eval', 'fail') for s in st) >= 2 and sum(s['k'] == 'eval' for s in st) >= 2
 
 
 def tally(rep, case, impl_res, ans):
@@ -225,7 +240,9 @@ def tally(rep, case, impl_res, ans):
             rep.count('op:' + s['op'])
         elif s['k'] == 'cols':
             rep.count('op:cols')
-    d = [s for s in case['steps'] if s['k'] != 'eval']
+        elif s['k'] == 'fail':
+            rep.count('failing_read_in_between:' + s['what'])
+    d = [s for s in case['steps'] if s['k'] not in ('eval', 'fail')]
     froms = [s['from'] for s in d]
     if len(froms) != len(set(froms)):
         rep.count('siblings')
@@ -235,11 +252,16 @@ def tally(rep, case, impl_res, ans):
 
 def classify(case, impl_res, ans, why):
     return dict(kind=why.split(':')[0], what=why.split(':')[1].strip()[:40],
-                ops=sorted({s.get('op', 'cols') for s in case['steps'] if s['k'] != 'eval'})[:3])
+                ops=sorted({s.get('op', 'cols') for s in case['steps'] if s['k'] not in ('eval', 'fail')})[:3])
 
 
 def shrink(case):
     st = case['steps']
+    # drop a failing read
+    for i, s in enumerate(st):
+        if s['k'] == 'fail':
+            c = dict(case); c['steps'] = st[:i] + st[i + 1:]
+            yield c
     # drop an eval
     for i, s in enumerate(st):
         if s['k'] == 'eval' and sum(x['k'] == 'eval' for x in st) > 1:
@@ -249,21 +271,21 @@ def shrink(case):
     idx = 0
     rid = {}
     for i, s in enumerate(st):
-        if s['k'] != 'eval':
+        if s['k'] not in ('eval', 'fail'):
             idx += 1
             rid[i] = idx
     for i, s in enumerate(st):
-        if s['k'] == 'eval':
+        if s['k'] in ('eval', 'fail'):
             continue
         me = rid[i]
-        used = any((x['k'] == 'eval' and x['reader'] == me) or (x['k'] != 'eval' and x['from'] == me) for x in st)
+        used = any((x['k'] in ('eval', 'fail') and x['reader'] == me) or (x['k'] not in ('eval', 'fail') and x['from'] == me) for x in st)
         if not used:
             new = []
             for j, x in enumerate(st):
                 if j == i:
                     continue
                 x = dict(x)
-                key = 'reader' if x['k'] == 'eval' else 'from'
+                key = 'reader' if x['k'] in ('eval', 'fail') else 'from'
                 if x[key] > me:
                     x[key] -= 1
                 new.append(x)
@@ -385,6 +407,9 @@ def gen(tier, rng):
                 arg, argkind = rng.pick(args), rng.pick(ARGKINDS)
                 steps.append({'k': 'derive', 'from': src, 'op': op, 'arg': arg, 'argkind': argkind}); widths.append(widths[src])
                 isf.append(isf[src] or _goes_float(op, arg, argkind))
+            if rng.random() < .25:
+                steps.append({'k': 'fail', 'reader': rng.randrange(len(widths)), 'what': rng.pick(['col', 'col', 'row']),
+                              'item': rng.pick(items_for(n, rng, 2, backend == 'cbin'))})
             for _ in range(rng.randrange(1, 4)):
                 rdr = rng.randrange(len(widths))
                 it = rng.pick(items_for(n, rng, 2, backend == 'cbin'))
